@@ -145,15 +145,17 @@ def spec(prop, tier):
                 wide_runs(["F3", "F6", "V3", "V10", "M2", "V1"], tier, depth=5) + \
                 big_runs(["F3", "V3", "V9", "M2"], tier, depth=5) + \
                 pair_runs(["F3", "V3"], ["AE", "NP"], tier, 5) + pair_runs(["P3", "P5", "F4", "F6", "V7", "V10", "M2", "M3"], ["NP"], tier, 4) + \
-                elem_runs(["F3", "V3"], ["NP"], tier, 3) + elem_runs(["P5", "F4", "F6", "V10", "M2", "V7"], ["NP"], tier, 2) + elem_runs(["V16", "V9"], ["AE"], tier, 3)
+                elem_runs(["F3", "V3"], ["NP"], tier, 3) + elem_runs(["P5", "F4", "F6", "V10", "M2", "V7"], ["NP"], tier, 2) + elem_runs(["V16", "V9"], ["AE"], tier, 3) + \
+                [dict(r, faults=1) for r in pair_runs(["P3", "F3", "V3"], ["NP", "PP"], tier, 4)]  # the same objects when an allocation fails midway
         return hist_runs(TRACKED + C06_TRIVIAL, tier, allocs=("AE",), nmax=4, cmax=3, bmax=6, depth=6) + \
             pair_runs(TRACKED + C06_TRIVIAL, ["AE", "NP", "PP"], tier, 5) + elem_runs(TRACKED, ["AE", "NP", "PP"], tier, 3)
     if prop == "C07":
         if q:
-            return pair_runs(["F1", "F3", "V1", "V3"], ["AE", "NP", "PP"], tier, 5) + \
+            return pair_runs(["F1", "F3", "V1", "V3"], ["AE", "NP", "PP"], tier, 5) + pair_runs(["F3", "V1", "V3"], ["NPS"], tier, 4) + \
                 pair_runs(["P1", "F2", "V2", "V5", "M1", "M2"], ["NP", "PP"], tier, 4) + \
                 elem_runs(["F3", "V3"], ["NP", "PP"], tier, 3) + elem_runs(["F1", "V1", "M2"], ["NP", "PP"], tier, 2)
-        return pair_runs(ALL_LISTS, ["AE", "NP", "PP"], tier, 5) + elem_runs(ALL_LISTS, ["AE", "NP", "PP"], tier, 3)
+        return pair_runs(ALL_LISTS, ["AE", "NP", "PP"], tier, 5) + elem_runs(ALL_LISTS, ["AE", "NP", "PP"], tier, 3) + \
+            pair_runs(["F1", "F3", "V1", "V3", "M2"], ["NPS", "T100", "T010", "T001"], tier, 4)
     if prop == "C08":
         if q:
             return pair_runs(["F3", "V3"], ["T000", "T111", "T010", "T100", "T001", "NPS"], tier, 5) + \
@@ -212,7 +214,8 @@ def spec(prop, tier):
         allocs = ["AE", "NP", "PP"]
         runs = []
         # element histories need depth 3 (two constructions and an assignment between elements of different size)
-        for r in pair_runs(lists, allocs, tier, 4 if q else 5) + elem_runs(lists, allocs, tier, 3 if q else 4):
+        for r in pair_runs(lists, allocs, tier, 4 if q else 5) + elem_runs(lists, allocs, tier, 3 if q else 4) + \
+                pair_runs(["F1", "V1"], ["T100", "T010"] if q else ["T100", "T010", "T001", "T110"], tier, 4):
             r["faults"] = 1
             runs.append(r)
         for l in lists:
